@@ -8,7 +8,10 @@ Correspondence
  (c) REAL aioftp.Server on MemoryPathIO / PathIO / AsyncPathIO over loopback, raw protocol client:
      reply classes, transferred bytes and trees compared three-way after every command (the
      property oracle), and against coq/Model/BackendSrv.v over MemFS / PosixFS (the tie of the
-     server-level theorems)."""
+     server-level theorems);
+ (a3) REAL MemoryPathIO against REAL PathIO on every operation that the model places inside the proved
+     API agreement domain `api_ok` (the statement of C18_api_mem_posix_agree_partial on the real code), and
+     the five excluded-cell witnesses re-run on the real backends."""
 import asyncio
 import itertools
 import os
@@ -33,7 +36,12 @@ LEVEL_TEXT = (
     "per-operation agreement lemmas for mkd/rmd/dele/rnto/stor/appe/retr/list/cwd under exactly the handler's "
     "PathConditions; C18_*_refuted witnesses (REST+STOR to a missing file, RNTO into the source's own subtree, RNTO "
     "below a file, RNTO onto the vanished source's own path); C18_fs_backends_equal from the closed obligation "
-    "same_calls Gen.PathIOTable.table = true. The file-system models are hand-written: MemFS is tied to the real "
+    "same_calls Gen.PathIOTable.table = true; C18_three_backends_agree_partial (any backend with PathIO's outcomes gives "
+    "PathIO's sessions); C18_api_mem_posix_agree_partial / C18_open_matrix_agree - on the decidable domain api_ok (every "
+    "query, mkdir with every flag, rmdir/unlink, rename onto a missing destination outside the refuted shapes, open in "
+    "every mode with every seek/read/write script inside the matrix) MemFS and PosixFS agree after every operation of "
+    "every sequence, with a *_cell_refuted witness for every excluded cell; C18_retr_blocks_payload (the block loop of "
+    "RETR delivers what one read(-1) returns, for every block size). The file-system models are hand-written: MemFS is tied to the real "
     "MemoryPathIO, PosixFS to the real kernel through PathIO, the server model to three real servers, by "
     "bounded-exhaustive + random differential runs; so: proof about the models + sampled agreement with the code."
 )
